@@ -86,6 +86,12 @@ theorem compileExprH_hyb (env : CEnv) : (e : CExpr) → {st st' : HSt} → {ce :
       obtain ⟨cargs, s1, cv, s2, h1, h2, _, rfl⟩ := inv_seqexpr h
       have := compileArgsH_hyb env args params h1; have := compileExprH_hyb env val h2
       simp only [hybCountE, seqState]; omega
+  | .callx name exts args ret params, st, st', ce, h => by
+      obtain ⟨cargs, s1, h1, _, rfl⟩ := inv_callx h
+      have := compileArgsH_hyb env args params h1
+      simp only [hybCountE, callxState]; omega
+  | .xmacro name exts ret, st, st', ce, h => by
+      rw [(inv_xmacro h).2]; rfl
 theorem compileArgsH_hyb (env : CEnv) : (as : List CExpr) → (ps : List CT) → {st st' : HSt} → {r : List ILPure} →
     compileArgsH env st as ps = .ok (r, st') → st'.hyb = st.hyb + hybCountEs as
   | [], ps, st, st', r, h => by
